@@ -983,7 +983,6 @@ Lemma test_matches_lab pl nl nn t : ~ In nn (test_names t) -> test_matches pl nl
 Proof.
   destruct t; simpl; intros H; auto.
   - destruct (String.eqb nn n) eqn:E; auto. apply seqb_eq in E. subst. tauto.
-  - destruct (String.eqb nn n) eqn:E; auto. apply seqb_eq in E. subst. tauto.
   - destruct (String.eqb nn n) eqn:E; [apply seqb_eq in E; subst; tauto|]. now rewrite andb_false_r.
 Qed.
 Lemma existsb_ext_in {A} (f g : A -> bool) l : (forall x, In x l -> f x = g x) -> existsb f l = existsb g l.
@@ -1074,6 +1073,18 @@ Proof.
   - apply in_concat. eexists. split.
     + apply in_map_iff. exists nn. split; [reflexivity|]. now apply dedup_in.
     + rewrite E1, E2. simpl. now left.
+Qed.
+
+(* when no triple is shadowed, EVERY name is handled: shifted out of the node's own array, or refused *)
+Theorem dispatch_total dt nd gt :
+  shadowed dt nd gt = [] ->
+  forall pl nl nn, In pl (all_positions gt) -> In nl (sound_kinds dt nd gt pl) ->
+    disp_of dt nd gt pl nl nn = DShift nl \/ disp_of dt nd gt pl nl nn = DRefuse.
+Proof.
+  intros Hs pl nl nn Hp Hk. apply dispatch_reserved; auto.
+  intros Hin. assert (H : In (pl, nl, nn) (shadowed dt nd gt)).
+  { unfold shadowed. apply in_concat. exists (shadowed_at dt nd gt pl). split; auto. now apply in_map. }
+  rewrite Hs in H. exact H.
 Qed.
 
 (* the lemmas exactly as Properties_C04.v states them *)
